@@ -7,6 +7,8 @@ import (
 	"fmt"
 	"math/rand/v2"
 	"net/netip"
+	"os"
+	"strings"
 
 	"github.com/semihalev/sdns/internal/ipset"
 	"github.com/semihalev/sdns/zzverif/vlib"
@@ -259,7 +261,9 @@ func prefixStrings(ps []netip.Prefix) []string {
 
 func main() {
 	r := vlib.Start("C17", "exploration")
-	pureMembership(r)
+	if only := os.Getenv("VERIF_C17_ONLY"); only == "" || strings.Contains(only, "ipset") { // debugging aid, see pipeline.go
+		pureMembership(r)
+	}
 	r.Require("ipset_probes_inside", 1000)
 	r.Require("ipset_probes_outside", 1000)
 	runPipeline(r)
